@@ -91,6 +91,8 @@ def check(tier: str) -> Result:
         sl = uncopy(vfg.apply_func(ts, None, None, [S, const(0)], {}, None, None))
         exp = mk("call", mk("attr", mk("attr", self_t, wrapper_env_attr(tree)), "render"), (sl,), ())
         res.add("C14.R3", f.loc(), f"wrappers.{c}.render", "render(state) == env.render(tree_slice(state, 0))", r is exp, txt(r, 6, 200))
+    from .c13 import base_wrapper_obligations
+    n_base = base_wrapper_obligations(res, "C14.R4", tree)
     from .common import borrow
     n_ts = borrow(res, "c19", {"C19.R1": "C14.R3"}, envs=None, only_if=None)
     res.analysed = {"tree_slice_obligations": n_ts, "classes": [W + "VmapWrapper", W + "VmapAutoResetWrapper", W + "AutoResetWrapper"], "vmap_call_sites": n,
